@@ -1556,6 +1556,23 @@ func walkState(repo string) (string, error) {
 	var filterShape, wired string
 	var entrySites, recoverSites, wholeWrites []string
 	var bypasses, loaderTables []string
+	var infoWrites []string
+	// a map of go/types' records (types.Info): the walker decides dead code by Types[cond].Value
+	isInfoMap := func(e ast.Expr) bool {
+		for {
+			switch x := e.(type) {
+			case *ast.ParenExpr:
+				e = x.X
+				continue
+			case *ast.SelectorExpr:
+				switch x.Sel.Name {
+				case "Types", "Defs", "Uses", "Implicits", "Selections", "Scopes", "Instances", "FileVersions":
+					return true
+				}
+			}
+			return false
+		}
+	}
 	newFilterSeen := false
 	for _, e := range ents {
 		name := e.Name()
@@ -1639,8 +1656,14 @@ func walkState(repo string) (string, error) {
 				if id, ok := n.Fun.(*ast.Ident); ok && id.Name == "recover" && len(n.Args) == 0 {
 					recoverSites = append(recoverSites, name+":"+wkEnclosing(f, n.Pos()))
 				}
+				if id, ok := n.Fun.(*ast.Ident); ok && (id.Name == "delete" || id.Name == "clear") && len(n.Args) >= 1 && isInfoMap(n.Args[0]) {
+					infoWrites = append(infoWrites, name+":"+wkEnclosing(f, n.Pos())+": "+wkSrc(fset, n))
+				}
 			case *ast.AssignStmt:
 				for _, l := range n.Lhs {
+					if ix, ok := l.(*ast.IndexExpr); ok && isInfoMap(ix.X) {
+						infoWrites = append(infoWrites, name+":"+wkEnclosing(f, n.Pos())+": "+strings.Join(strings.Fields(wkSrc(fset, n)), " "))
+					}
 					lt := wkSrc(fset, l)
 					isAddr := false
 					if len(n.Rhs) == len(n.Lhs) {
@@ -1772,6 +1795,8 @@ func walkState(repo string) (string, error) {
 	fmt.Fprintf(&sb, "(* astWalker values and .Walk( calls outside ast_walker.go (package ruleguard, hooks excluded): who starts a walk over the shared filter parameters *)\nDefinition gen_walker_entry_sites : list string := %s.\n", wkCoqStrList(entrySites))
 	fmt.Fprintf(&sb, "(* assignments that overwrite the filter parameters as a whole *)\nDefinition gen_params_whole_writes : list string := %s.\n", wkCoqStrList(wholeWrites))
 	fmt.Fprintf(&sb, "(* recover() in package ruleguard: a walk can only be left early through a panic that nobody inside the run catches *)\nDefinition gen_recover_sites : list string := %s.\n", wkCoqStrList(recoverSites))
+	sort.Strings(infoWrites)
+	fmt.Fprintf(&sb, "(* writes to the maps of a types.Info (Types / Defs / Uses / ...) in package ruleguard: the walker reads the constant value of an\n   if condition from RunContext.Types.Types, whatever filters ran on the condition before *)\nDefinition gen_types_info_writes : list string := %s.\n", wkCoqStrList(infoWrites))
 	fmt.Fprintf(&sb, "Definition gen_deadcode_writes_in_walker : N := %d.\nDefinition gen_currentfunc_writes_in_walker : N := %d.\n", inWalker["deadcode"], inWalker["currentFunc"])
 	return sb.String(), nil
 }
